@@ -280,13 +280,18 @@ func c05RunCopy(t *testing.T, c *c05CopyCase) string {
 		}
 		defer func() { relayWritevFunc = orig }()
 	}
-	out := VRecover(func() string {
-		if c.chunked {
-			n, err = relayChunkedSpliceCopy(context.Background(), dstRelayT, sideTCP, record)
-		} else {
-			n, err = defaultRelayCopyEngine{}.Copy(context.Background(), dst, src, record)
-		}
-		return ""
+	out := c05Watchdog(func() string {
+		return VRecover(func() string {
+			if c.chunked {
+				n, err = relayChunkedSpliceCopy(context.Background(), dstRelayT, sideTCP, record)
+			} else {
+				n, err = defaultRelayCopyEngine{}.Copy(context.Background(), dst, src, record)
+			}
+			return ""
+		})
+	}, func() {
+		_ = dstRelayT.Close()
+		_ = srcBase.Close()
 	})
 	_ = dstRelayT.CloseWrite()
 	wg.Wait()
@@ -404,8 +409,12 @@ func TestVerifC05Tcp(t *testing.T) {
 		if i%12 == 5 {
 			// a destination that resets mid-transfer (bytes are left in the splice pipe), then a clean
 			// TCP-to-TCP splice copy in the same process: it must not start with another connection's bytes
-			st.Emit("oracle dst-reset-mid-transfer", c05RunDstFailure(t, r))
+			fail := c05RunDstFailure(t, r)
+			st.Emit("oracle dst-reset-mid-transfer", fail)
 			stats.Inc("copy.dst-reset-mid-transfer")
+			if strings.Contains(fail, "hang:") {
+				break // every further copy would stall the same way
+			}
 			clean := &c05CopyCase{stack: "plain", eof: true, srcTCP: true, dstTCP: true, useRec: true,
 				chunks: []c05Chunk{{gen: true, seed: r.Intn(256), len: r.Range(1000, 300000)}}}
 			impl := c05RunCopy(t, clean)
@@ -425,6 +434,9 @@ func TestVerifC05Tcp(t *testing.T) {
 			}
 		}
 		st.Emit(op, impl)
+		if strings.Contains(impl, "hang:") {
+			break
+		}
 		if i < 3 {
 			stats.Sample(op + " => " + impl)
 		}
@@ -454,7 +466,16 @@ func c05RunDstFailure(t *testing.T, r *VRand) string {
 		gotCh <- buf[:n]
 	}()
 	var rec atomic.Int64
-	_, err := defaultRelayCopyEngine{}.Copy(context.Background(), dstSide, srcSide, func(n int64) { rec.Add(n) })
+	var err error
+	if hang := c05Watchdog(func() string {
+		_, err = defaultRelayCopyEngine{}.Copy(context.Background(), dstSide, srcSide, func(n int64) { rec.Add(n) })
+		return ""
+	}, func() {
+		_ = dstSide.Close()
+		_ = srcSide.Close()
+	}); hang != "" {
+		return "bad:" + hang
+	}
 	got := <-gotCh
 	switch {
 	case err == nil:
@@ -463,4 +484,23 @@ func c05RunDstFailure(t *testing.T, r *VRand) string {
 		return "bad:destination-got-bytes-that-were-not-sent-in-this-order"
 	}
 	return "ok"
+}
+
+// c05Watchdog runs f; a copy that has not returned after two minutes of wall clock (every case moves at
+// most a few MiB over loopback) is reported as a hang instead of stalling the whole check: the conns are
+// closed to free the goroutine.
+func c05Watchdog(f func() string, unblock func()) string {
+	done := make(chan string, 1)
+	go func() { done <- f() }()
+	select {
+	case out := <-done:
+		return out
+	case <-time.After(2 * time.Minute):
+		unblock()
+		select {
+		case <-done:
+		case <-time.After(10 * time.Second):
+		}
+		return "hang:the-copy-did-not-return-within-2-minutes"
+	}
 }
